@@ -8,6 +8,8 @@ from vlib.runner import Part, Violation
 
 PROPERTY = "C09"
 LEVEL = "fault_enumeration"
+# parts repeated in a child interpreter started with -O and with warnings turned into errors (vlib/runner.py, MODES)
+MODE_PARTS = {"OW": ['re-entrant-calls', 'fault-and-gap-sweep', 'fractional-idle-timeouts', 'deserialiser-failures']}
 RULE = ("history = 1-15 PooledClient calls (legal arguments; store/fetch/multi-key/incr/touch/version/quit) over the fake "
         "network, each with at most one fault drawn per event kind (any socket-level fault or reply tampering of C01), "
         "clock advances with gaps below / at / above pool_idle_timeout; max_pool_size in {1, 2, None}; pool_idle_timeout "
